@@ -177,17 +177,21 @@ func Harness_C01_q_verified_twin() {
 // inside Start, a function the engine cannot execute).
 func Harness_C01_q_registrations_wrapped() {
 	sites := verif.HandleCallSites()
-	verif.Assert(len(sites) >= 6, "call-sites-found")
+	verif.Assert(len(sites) >= 6, "inv:call-sites-found")
 	protected := map[string]bool{"/accessories": true, "/characteristics": true, "/pairings": true, "/resource": true}
 	seen := 0
 	for _, s := range sites {
 		if protected[s.Pattern] {
 			seen++
 			verif.Fact("site", s.Pattern+"@"+s.Func)
-			verif.Assert(s.Wrapped, "protected-pattern-registered-through-Authenticate:"+s.Pattern)
+			// Alarm only when the site certainly bypasses Authenticate (the handler argument is an
+			// endpoint constructor or a plain function). A registration through a helper the scan
+			// cannot see through is undecided here; the behavioural harness above decides it.
+			verif.Assert(!s.Bare, "protected-pattern-registered-without-Authenticate:"+s.Pattern)
+			verif.Assert(s.Wrapped, "inv:protected-pattern-syntactically-wrapped:"+s.Pattern)
 		}
 	}
-	verif.Assert(seen == 4, "all-protected-patterns-registered")
+	verif.Assert(seen == 4, "inv:all-protected-patterns-have-a-constant-registration")
 	verif.Reach("end")
 }
 
